@@ -180,8 +180,10 @@ def ref_eff(eff, idx, a, prev):
         return ("l", [ref_frame(eff, idx, a)])
     if k == "agen":
         return ("a", [x for _, x in ref_gen(eff, idx, a)[1]])
-    if k in ("mark", "tmark"):
+    if k in ("mark", "tmark", "smark"):
         return ("l", [("s", fr(eff.split(":")[1]))])
+    if k == "cmark":
+        return ("s", fr(eff.split(":")[1]))
     if k == "app":
         return ("l", list(prev[1]) + [("s", fr(eff.split(":")[1]))])
     if k == "sq":
@@ -281,7 +283,7 @@ def _run(case, prior=False):
     CALLS = []       # call observations in execution order
     HANDLES = {}     # pipelines as returned by register_value_producer / register_rate_producer
     OBJECTS = {}     # (pipe, tag) -> the callable object that was registered (to register the very same object again)
-    out = {"error": None, "late": [], "stepsize": []}
+    out = {"error": None, "late": [], "stepsize": [], "ops": []}
 
     def fl(s):
         return float(F(s))
@@ -314,6 +316,8 @@ def _run(case, prior=False):
             return np.array([c[0] + c[1] * int(i) + c[2] * a for i in idx], dtype=float)
         if k == "mark":
             return [c[0]]
+        if k == "cmark":
+            return c[0]
         if k == "tmark":
             return (c[0],)
         if k == "app":
@@ -332,11 +336,12 @@ def _run(case, prior=False):
             return c[0] * float(prev) + c[1] + c[3] * a
         raise ValueError(eff)
 
-    def shape_out(v, act):
-        """the same numbers in the dtype / scalar type the case asks for (never normalised to float64)"""
+    def shape_out(v, act, ncall=0):
+        """the same numbers in the dtype / scalar type the case asks for (never normalised to float64); `alt`: integer dtype on
+        every other call of the same callable (the representation varies ALONG the history)"""
         if isinstance(v, list):
-            return [shape_out(x, act) for x in v]
-        if act.get("dtype") == "int":
+            return [shape_out(x, act, ncall) for x in v]
+        if act.get("dtype") == "int" or (act.get("dtype") == "alt" and ncall % 2 == 0):
             if isinstance(v, (pd.Series, pd.DataFrame, np.ndarray)):
                 if v.size and bool(np.all(np.asarray(v) == np.floor(np.asarray(v)))):
                     return v.astype("int64")
@@ -347,11 +352,19 @@ def _run(case, prior=False):
         return v
 
     def mk_probe(pipe, tag, eff, role, act):
+        ncall, shared = [0], []
+
         def f(*args, **kwargs):
             idx, a, prev, extras = decode(role, args, kwargs)
             if role == "post":                 # post_processor(value, manager)
                 idx, a, prev, extras = None, 0.0, args[0], {"pos": [], "kw": {}}
-            res = shape_out(effect(eff, idx, a, prev), act)
+            if eff.startswith("smark:"):       # a source that owns ONE list object and returns that same object every time
+                if not shared:
+                    shared.append([fl(eff.split(":")[1])])
+                res = shared[0]
+            else:
+                res = shape_out(effect(eff, idx, a, prev), act, ncall[0])
+            ncall[0] += 1
             TRACE.append({"pipe": pipe, "tag": tag, "idx": None if idx is None else [int(i) for i in idx],
                           "a": None if a is None else fnum(a), "extra": extras,
                           "prev": None if prev is None else canon(prev), "out": canon(res)})
@@ -399,7 +412,7 @@ def _run(case, prior=False):
         """one registration call through the builder interface; returns the outcome class"""
         try:
             if act["op"] == "mod":
-                role = "list-mod" if act["eff"].split(":")[0] in ("gen", "fgen") else "replace-mod"
+                role = "list-mod" if act["eff"].split(":")[0] in ("gen", "fgen", "cmark") else "replace-mod"
                 key = (act["pipe"], act["tag"])
                 if key not in OBJECTS or not act.get("same_object"):
                     OBJECTS[key] = as_callable(act.get("callable", "function"), mk_probe(act["pipe"], act["tag"], act["eff"], role, act), act["tag"])
@@ -460,17 +473,22 @@ def _run(case, prior=False):
         def setup(self, b):
             self.b = b
             self.get = b.value.get_value
-            self.pipes = {c["pipe"]: b.value.get_value(c["pipe"]) for c in case["calls"]}
+            self.pipes = {c["pipe"]: b.value.get_value(c["pipe"]) for c in case["calls"] if not c.get("op")}
             self.step_pipe = b.value.get_value(STEP_PIPE)
             self.tracked = b.population.get_view(["tracked"])
+            self.stepview = b.population.get_view(["step_size", "tracked"])
             self.gstep = b.time.step_size()
             self.sstep = b.time.simulant_step_sizes()
             self.clock = b.time.clock()
             if case["mults"] is not None:
                 unit = pd.Timedelta(case["min_step_ns"], unit="ns")
-                b.time.register_step_size_modifier(
-                    lambda idx: pd.Series([unit * case["mults"][int(i)] for i in idx], index=idx))
-            if any(c["where"] == "initializer" for c in case["calls"]):
+                later = case.get("mults_later")         # [step number, multipliers]: the modifier's answer changes during the run
+
+                def modifier(idx):
+                    m = later[1] if later and self.nstep >= later[0] else case["mults"]
+                    return pd.Series([unit * m[int(i)] for i in idx], index=idx)
+                b.time.register_step_size_modifier(modifier)
+            if any(c["where"] == "initializer" for c in case["calls"] if not c.get("op")):
                 # an initializer that creates nothing and needs the clock's column: pipelines used during population creation
                 b.population.initializes_simulants(self.first_use, creates_columns=[], requires_columns=["step_size"])
 
@@ -481,7 +499,7 @@ def _run(case, prior=False):
 
         def first_use(self, pop_data):
             for ci, c in enumerate(case["calls"]):
-                if c["where"] == "initializer":
+                if c["where"] == "initializer" and not c.get("op"):
                     do_call(ci, c, created=pop_data.index)
 
         def on_time_step(self, e):
@@ -491,7 +509,7 @@ def _run(case, prior=False):
                 if at == self.nstep and sims:
                     self.tracked.update(pd.Series(False, index=pd.Index(np.array(sims, dtype="int64")), name="tracked"))
             for ci, c in enumerate(case["calls"]):
-                if c["where"] == "listener" and c["after"] == self.nstep:
+                if c["where"] == "listener" and c["after"] == self.nstep and not c.get("op"):
                     do_call(ci, c, event=e)
 
     drv = Driver()
@@ -580,7 +598,18 @@ def _run(case, prior=False):
         for k in range(nsteps + 1):
             for ci, c in enumerate(case["calls"]):
                 if c["where"] == "outside" and c["after"] == k:
-                    do_call(ci, c)
+                    if c.get("op") == "set_step":     # another component writes the step_size column between two calls
+                        try:
+                            col = sim.get_population(untracked=True)["step_size"]
+                            drv.stepview.update(pd.Series(pd.Timedelta(case["min_step_ns"] * c["mult"], unit="ns"),
+                                                          index=pd.Index(np.array(c["sims"], dtype="int64")), name="step_size").astype(col.dtype))
+                            out["ops"].append("ok")
+                        except Exception as e:  # noqa: BLE001
+                            out["ops"].append("err:" + type(e).__name__)
+                    elif c.get("op") == "late_reg":   # a registration attempted while the simulation runs
+                        out["ops"].append(register(drv.b, c["act"], "driver"))
+                    else:
+                        do_call(ci, c)
             for j, c in enumerate(case.get("stepsize_calls", [])):
                 if c["after"] == k:
                     step_pipe_call(j, c)
@@ -615,11 +644,18 @@ class C14(Prop):
 
     # ------------------------------------------------------------------ generation
     def _pipeline(self, rng, name, exact, ids):
-        kind = rng.choice(["num", "num", "rate", "rate", "marks", "list", "list"])
+        kind = rng.choice(["num", "num", "rate", "rate", "marks", "list", "list", "slist"])
         # what the numeric callables return: a Series (or a number when called without index), a DataFrame with several
         # values per simulant, or a numpy array (no index)
         shape = rng.choice(["series", "series", "frame", "frame", "array"]) if kind in ("num", "rate") else \
             rng.choice(["series", "series", "frame"]) if kind == "list" else "series"
+        if kind == "slist":
+            # list combiner on a source that returns the SAME list object on every call: list_combiner appends to it in place, so the
+            # object keeps growing from call to call (what the code does; the property holds call by call: source value + one entry each)
+            pq = (lambda: fs(F(rng.randint(0, 8), 8))) if exact else (lambda: fs(F(round(rng.uniform(0, 1), 3))))
+            src = {"op": "src", "pipe": name, "comb": "list", "post": rng.choice(["none", "none", "union", "c:app:99"]), "eff": f"smark:{pq()}", "via": "value"}
+            acts = [{"op": "mod", "pipe": name, "eff": f"cmark:{pq()}"} for _ in range(rng.choice([0, 1, 2, 2, 3]))]
+            return self._finish(rng, kind, shape, src, acts, ids)
         ncol = rng.choice([2, 2, 3])
         nm = rng.choice([0, 1, 2, 3, 3, 4, 5, 6])
         q = (lambda lo, hi, den: fs(F(rng.randint(lo * den, hi * den), den))) if exact else \
@@ -631,7 +667,7 @@ class C14(Prop):
             src = {"op": "src", "pipe": name, "comb": "replace", "post": post,
                    "eff": f"{g}:{q(0, 3, 4)}:{q(0, 1, 4)}:{q(0, 1, 2)}" + (f":{ncol}" if shape == "frame" else ""),
                    "via": "rate" if kind == "rate" and rng.random() < 0.6 else "value",
-                   "dtype": rng.choice(["float", "float", "float", "int"]), "scalar_kind": rng.choice(["float", "float", "np", "0d"]),
+                   "dtype": rng.choice(["float", "float", "float", "int", "alt"]), "scalar_kind": rng.choice(["float", "float", "np", "0d"]),
                    "default_combiner": rng.random() < 0.4, "default_post": rng.random() < 0.4}
             if shape != "array" and rng.random() < 0.14:
                 # the source is a lookup table (scalar data broadcast over the index): constant, called with the index only
@@ -662,6 +698,9 @@ class C14(Prop):
                    "eff": f"{'lfgen' if shape == 'frame' else 'lgen'}:{pq()}:{pc()}:0{tail}", "via": "value"}
             for _ in range(nm):
                 acts.append({"op": "mod", "pipe": name, "eff": f"{'fgen' if shape == 'frame' else 'gen'}:{pq()}:{pc()}:0{tail}"})
+        return self._finish(rng, kind, shape, src, acts, ids)
+
+    def _finish(self, rng, kind, shape, src, acts, ids):
         kinds = ["function", "function", "lambda", "method", "partial", "object", "named"]
         src["callable"] = rng.choice(kinds)
         src["post_callable"] = rng.choice(kinds)
@@ -680,7 +719,7 @@ class C14(Prop):
         sources = [src] if r < 0.8 else []
         if r >= 0.9:
             # a second source with a different effect and post-processor (must be rejected, the first one stays)
-            alt = {"num": "gen:5:0:0", "rate": "gen:5:0:0", "marks": "mark:7", "list": "lgen:1/2:0:0"}[kind]
+            alt = {"num": "gen:5:0:0", "rate": "gen:5:0:0", "marks": "mark:7", "list": "lgen:1/2:0:0", "slist": "smark:1/2"}[kind]
             sources = [src, dict(src, eff=alt, tag="src2", post="none", via="value", source_kind="probe")]
         return kind + ("" if shape == "series" else ":" + shape), sources, acts
 
@@ -731,7 +770,7 @@ class C14(Prop):
             pn = rng.choice(list(pipes))
             kind = pipes[pn]
             ridx = rng.random()
-            if kind in ("num", "rate") and ridx < 0.2:
+            if kind in ("num", "rate", "slist") and ridx < 0.2:
                 idx = None
             elif ridx < 0.3:
                 idx = []
@@ -763,7 +802,7 @@ class C14(Prop):
                 return True
             if a.get("source_kind") == "pipeline":
                 return depth < 4 and scalar_ok(a["of"], depth + 1) and pipes.get(a["of"], "num") in ("num", "rate")
-            return a["eff"].split(":")[0] == "gen" and a.get("source_kind", "probe") == "probe"
+            return a["eff"].split(":")[0] in ("gen", "smark") and a.get("source_kind", "probe") == "probe"
         for c in calls:
             if c["idx"] is None and not scalar_ok(c["pipe"]):
                 c["idx"] = rng.sample(range(pop), rng.randint(1, pop))
@@ -786,6 +825,50 @@ class C14(Prop):
         for c in calls:
             if c["idx"] is not None and c["where"] != "initializer" and rng.random() < 0.25:
                 c["idx"] = "event" if c["where"] == "listener" and rng.random() < 0.6 else "all"
+        # LESSONS 12: step sizes that change during the run – the modifiers answer differently from some step on, with one simulant
+        # kept on the minimum so that the GLOBAL step stays pinned while own steps change
+        mults_later = None
+        if mults is not None and rng.random() < 0.35:
+            new = [rng.randint(1, 5) for _ in range(pop)]
+            if rng.random() < 0.6:
+                pin = rng.randrange(pop)
+                mults[pin] = new[pin] = 1
+            mults_later = [rng.choice([1, 1, 2]), new]
+        # … and the SAME call again – verbatim, on a covered sub-index, permuted, with another argument, in another call form –
+        # after other calls, after another component wrote the step_size column, after a refused registration, after a clock step
+        if rng.random() < 0.55:
+            base = rng.choice([c for c in calls if c["where"] != "initializer"] or [None])
+            if base is not None:
+                extra = []
+                for _ in range(rng.randint(0, 2)):
+                    r = rng.random()
+                    if r < 0.45 and mults is not None:
+                        pool = base["idx"] if isinstance(base["idx"], list) and base["idx"] else list(range(pop))
+                        extra.append({"op": "set_step", "after": base["after"], "where": "outside", "pipe": base["pipe"], "idx": [],
+                                      "sims": sorted(set(rng.sample(pool, rng.randint(1, len(set(pool)))))), "mult": rng.randint(1, 6)})
+                    elif r < 0.6:
+                        extra.append({"op": "late_reg", "after": base["after"], "where": "outside", "pipe": base["pipe"], "idx": [],
+                                      "act": {"op": "mod", "pipe": base["pipe"], "eff": "aff:3:1:0:0", "tag": "late"}})
+                    else:
+                        other = rng.choice(calls)
+                        extra.append(dict(other, after=base["after"], where="outside", idx=other["idx"] if isinstance(other["idx"], list) or other["idx"] is None else "all"))
+                variant = rng.choice(["verbatim", "verbatim", "sub-index", "permuted", "other-argument", "other-form"])
+                rpt = dict(base, repeat=variant, where=rng.choice(["outside", "outside", "listener"]), after=base["after"] + rng.choice([0, 0, 0, 1]))
+                if isinstance(base["idx"], list) and base["idx"]:
+                    if variant == "sub-index":
+                        rpt["idx"] = rng.sample(base["idx"], rng.randint(1, len(base["idx"])))
+                    elif variant == "permuted":
+                        rpt["idx"] = rng.sample(base["idx"], len(base["idx"]))
+                if variant == "other-argument" and not base.get("noarg"):
+                    rpt["a"] = fs(F(base["a"]) + F(1, 4)) if exact else fs(F(round(float(F(base["a"])) + 0.37, 3)))
+                if variant == "other-form" and not base.get("noarg"):      # same call, other representation: keyword / positional, other index kind, other handle
+                    rpt.update(kw=not base["kw"] if not base.get("extra") or base["extra"][0] != "pos" else False,
+                               index_kind=rng.choice(["int64", "range", "named"]), handle=rng.choice(["get_value", "producer", "late"]))
+                if rpt["where"] == "listener":
+                    rpt["after"] += 1
+                if rpt["idx"] == "created" or (rpt["idx"] == "event" and rpt["where"] != "listener"):
+                    rpt["idx"] = "all"
+                calls = calls + extra + [rpt]
         # registrations attempted from a post_setup listener (must be refused), the clock's own pipeline, a second source for it
         late = []
         if rng.random() < 0.15:
@@ -799,7 +882,7 @@ class C14(Prop):
             comps[rng.randrange(len(comps))].append({"op": "src", "pipe": STEP_PIPE, "comb": "list", "post": "none", "eff": "lgen:0:0:0", "via": "value", "tag": "src2"})
         case = {"stream": "exact" if exact else "general", "pop": pop, "min_step_ns": min_ns, "mults": mults,
                 "comps": comps, "calls": calls, "driver_pos": rng.randint(0, 4), "untrack": untrack,
-                "late_regs": late, "stepsize_calls": stepcalls, "prior": rng.random() < 0.1}
+                "late_regs": late, "stepsize_calls": stepcalls, "prior": rng.random() < 0.1, "mults_later": mults_later}
         if exact:
             case = self._make_exact(case)
         return case
@@ -835,11 +918,15 @@ class C14(Prop):
     def _inexact_pipes(self, case):
         bad = set()
         regs = [dict(a, outcome="?") for comp in case["comps"] for a in comp]
-        for c in case["calls"]:
+        tl, state = self._timeline(case), {}
+        for ci in self._order(case):
+            c = case["calls"][ci]
+            if c.get("op"):
+                continue
             if isinstance(c["idx"], str):
                 c = dict(c, idx=list(range(case["pop"])))
             try:
-                self._expected(case, self._registered(regs, assume=True), c, self._steps_cfg(case, c), check=True)
+                self._expected(case, self._registered(regs, assume=True), c, tl[ci], check=True, state=state)
             except _Inexact:
                 bad.add(c["pipe"])
         return bad
@@ -911,6 +998,26 @@ class C14(Prop):
                               cx("p2", [3, 1], noarg=True, handle="producer", after=1), cx("p2", "created", noarg=True, where="initializer"),
                               cx("p3", [1, 3, 0], noarg=True, index_kind="named", after=2), cx("p4", [2, 3, 3], noarg=True, after=1, where="listener"),
                               cx("p6", [0]), cx("p0", "all", after=2, handle="late", extra=["pos", "1/2"])]})
+        # LESSONS 12-13: the same call again – verbatim, sub-index, permuted, other argument, other call form – with other calls, a
+        # write to the step_size column, a refused registration and clock steps in between; two rate pipelines alternating; own steps
+        # changing while the global step stays pinned (simulant 2 always on the minimum); a source that returns the SAME list object
+        # every time (list_combiner appends in place: the object grows from call to call); integer / float dtype alternating per call
+        ss = lambda sims, mult, after=0: {"op": "set_step", "after": after, "where": "outside", "pipe": "r0", "idx": [], "sims": sims, "mult": mult}      # noqa: E731
+        out.append({"stream": "exact", "pop": 4, "min_step_ns": year8, "mults": [2, 3, 1, 4], "mults_later": [2, [4, 1, 1, 2]], "driver_pos": 0, "untrack": [[2, [3]]],
+                    "late_regs": [], "stepsize_calls": [{"after": 1, "idx": [0, 1, 2, 3], "skip": False}, {"after": 3, "idx": [0, 1, 2, 3], "skip": False}], "prior": False,
+                    "comps": [[dict(s("r0", "replace", "rescale", "gen:1/2:1/4:1", via="rate"), dtype="alt"), m("r0", "aff:2:0:0:1/2", "m1"),
+                               dict(s("r1", "replace", "rescale", "fgen:1:1/4:0:2"), dtype="alt"),
+                               s("sl", "list", "union", "smark:1/2"), m("sl", "cmark:1/4", "m2"), m("sl", "cmark:1/8", "m3"),
+                               s("s2", "list", "none", "smark:3")]],
+                    "calls": [cx("r0", [3, 0, 2, 1]), cx("r0", [3, 0, 2, 1], repeat="verbatim"), cx("r1", [3, 0, 2, 1]), ss([0, 3], 5),
+                              cx("r0", [3, 0, 2, 1], repeat="verbatim"), cx("r1", [0, 3], repeat="sub-index"), cx("r0", [1, 2, 0, 3], repeat="permuted", a="3/4"),
+                              {"op": "late_reg", "after": 0, "where": "outside", "pipe": "r0", "idx": [], "act": {"op": "mod", "pipe": "r0", "eff": "aff:3:1:0:0", "tag": "late"}},
+                              cx("r0", [3, 0, 2, 1], repeat="other-form", kw=True, index_kind="named", handle="producer"),
+                              cx("r0", [3, 0, 2, 1], repeat="verbatim", after=1), cx("r1", [3, 0, 2, 1], repeat="verbatim", after=2, where="listener"),
+                              cx("r0", [3, 0, 2, 1], repeat="verbatim", after=2), ss([2], 3, after=2), cx("r0", [3, 0, 2, 1], repeat="verbatim", after=2),
+                              cx("r0", [3, 0, 2, 1], repeat="verbatim", after=3), cx("r1", "all", after=3),
+                              cx("sl", None, skip=True), cx("sl", None, skip=True, repeat="verbatim"), cx("sl", [1, 0]), cx("s2", None), cx("sl", None, repeat="verbatim", after=1),
+                              cx("s2", None, repeat="verbatim", after=1)]})
         # union of DataFrames
         out.append({"stream": "exact", "pop": 3, "min_step_ns": year8, "mults": None, "driver_pos": 0,
                     "comps": [[s("p0", "list", "union", "lfgen:1/8:1/16:0:2"), m("p0", "fgen:1/4:0:0:2", "m1"), m("p0", "fgen:0:1/16:0:2", "m2")]],
@@ -938,7 +1045,9 @@ class C14(Prop):
                 if act["pipe"] not in used or act["op"] == "mod":
                     yield dict(case, comps=case["comps"][:k] + [comp[:i] + comp[i + 1:]] + case["comps"][k + 1:])
         if case["mults"] is not None and case["pop"] > 1:
-            yield dict(case, mults=None)
+            yield dict(case, mults=None, mults_later=None, calls=[c for c in case["calls"] if c.get("op") != "set_step"])
+        if case.get("mults_later"):
+            yield dict(case, mults_later=None)
         if case.get("untrack"):
             yield dict(case, untrack=[])
         for i, c in enumerate(case["calls"]):
@@ -971,30 +1080,70 @@ class C14(Prop):
     def _call(case, rec):
         """the call of the case with its index resolved to the labels that were actually passed (event.index / whole population)"""
         c = case["calls"][rec["call"]]
-        return dict(c, idx=rec["idx"], spec=c["idx"] if isinstance(c["idx"], str) else "labels")
+        return dict(c, idx=rec["idx"], spec=c["idx"] if isinstance(c["idx"], str) else "labels", ci=rec["call"])
 
     def _acts_by_tag(self, case):
         return {(a["pipe"], a["tag"]): a for comp in case["comps"] for a in comp}
 
     @staticmethod
-    def _steps_cfg(case, c):
-        """the global step and every simulant's own step at call `c`, from the CONFIGURATION alone (minimum step, step
-        modifiers): {"g": ns, "s": {simulant: ns}}. Per-simulant clocks: a simulant whose next event time has come is
-        given its modifier's step; the global step is the time to the earliest next event."""
-        unit, pop = case["min_step_ns"], case["pop"]
-        if case["mults"] is None or c["where"] == "initializer":
-            return {"g": unit, "s": {i: unit for i in range(pop)}}
-        m = case["mults"]
-        clock, nxt = 0, list(m)                  # after initialize_simulants: everybody was due and got its own step
-        g = min(nxt) - clock
-        for _ in range(c["after"] - 1 if c["where"] == "listener" else c["after"]):
-            clock += g
-            nxt = [clock + m[i] if nxt[i] <= clock else nxt[i] for i in range(pop)]
-            g = min(nxt) - clock
-        return {"g": g * unit, "s": {i: m[i] * unit for i in range(pop)}}
+    def _order(case):
+        """indices of case["calls"] in execution order: initializer calls, then for k = 0, 1, …: the outside operations after k
+        steps (list order), then the calls made inside the time_step listener of step k + 1"""
+        calls = case["calls"]
+        out = [i for i, c in enumerate(calls) if c["where"] == "initializer"]
+        n = max([c["after"] for c in calls] + [0])
+        for k in range(n + 1):
+            out += [i for i, c in enumerate(calls) if c["where"] == "outside" and c["after"] == k]
+            out += [i for i, c in enumerate(calls) if c["where"] == "listener" and c["after"] == k + 1]
+        return out
 
-    def _expected(self, case, pipes, c, steps, check=False, depth=0):
-        """expected (value, trace as [pipe, tag] pairs, pre-post value) of call `c` over exact rationals; None if rejected"""
+    @classmethod
+    def _timeline(cls, case):
+        """the global step and every simulant's own step at each call, from the CONFIGURATION and the HISTORY of the case alone
+        (minimum step, step modifiers and when their answer changes, writes to the step_size column by other components):
+        {call index: {"g": ns, "s": {simulant: ns}}}. Per-simulant clocks: a simulant whose next event time has come is given
+        the step its modifier asks for at that moment; the global step is the time to the earliest next event."""
+        unit, pop, calls = case["min_step_ns"], case["pop"], case["calls"]
+        res = {}
+        snap = lambda g, own: {"g": g * unit, "s": {i: own[i] * unit for i in range(pop)}}     # noqa: E731
+        if case["mults"] is None:
+            return {i: snap(1, [1] * pop) for i in range(len(calls))}
+        later = case.get("mults_later")
+        mults_at = lambda s: later[1] if later and s >= later[0] else case["mults"]           # noqa: E731
+        for i, c in enumerate(calls):
+            if c["where"] == "initializer":
+                res[i] = snap(1, [1] * pop)
+        own = list(mults_at(0))                  # initialize_simulants ends with a step_forward: everybody is due
+        clock, nxt = 0, list(own)
+        g = min(nxt) - clock
+        n = max([c["after"] for c in calls] + [0])
+        for k in range(n + 1):
+            for i, c in enumerate(calls):
+                if c["where"] == "outside" and c["after"] == k:
+                    if c.get("op") == "set_step":
+                        for sim in c["sims"]:
+                            own[sim] = c["mult"]
+                    res[i] = snap(g, own)
+            for i, c in enumerate(calls):
+                if c["where"] == "listener" and c["after"] == k + 1:
+                    res[i] = snap(g, own)
+            clock += g                            # step_forward of step k + 1
+            m = mults_at(k + 1)
+            for sim in range(pop):
+                if nxt[sim] <= clock:
+                    own[sim] = m[sim]
+                    nxt[sim] = clock + own[sim]
+            g = min(nxt) - clock
+        return res
+
+    @classmethod
+    def _steps_cfg(cls, case, c):
+        return cls._timeline(case)[c["ci"]]
+
+    def _expected(self, case, pipes, c, steps, check=False, depth=0, state=None):
+        """expected (value, trace as [pipe, tag] pairs, pre-post value) of call `c` over exact rationals; None if rejected.
+        `state` carries what earlier calls of the history left behind (the content of list objects that a source hands out again
+        and again, to which the list combiner appends in place) and is updated."""
         p = pipes.get(c["pipe"])
         if p is None or p["src"] is None or depth > 4:
             return None
@@ -1009,13 +1158,15 @@ class C14(Prop):
                         raise _Inexact()
         kind = src.get("source_kind", "probe")
         if kind == "pipeline":         # the source is another pipeline: it is called with the same arguments, post-processed
-            inner = self._expected(case, pipes, dict(c, pipe=src["of"], skip=False), steps, check, depth + 1)
+            inner = self._expected(case, pipes, dict(c, pipe=src["of"], skip=False), steps, check, depth + 1, state)
             if inner is None:
                 return None
             v, tags = inner[0], list(inner[1])
         else:
             chk(src["eff"], None)
             v = ref_eff(src["eff"], idx, a, None)
+            if src["eff"].startswith("smark:") and state is not None:
+                v = ("l", list(state.setdefault("shared", {}).get(c["pipe"], v[1])))      # the same list object as last time
             tags = [[c["pipe"], src["tag"]]] if kind == "probe" else []     # a lookup table is not a probe: it logs nothing
         for mreg in p["mods"]:
             eff = acts[(c["pipe"], mreg["tag"])]["eff"]
@@ -1027,6 +1178,8 @@ class C14(Prop):
                 chk(eff, v)
                 v = ref_eff(eff, idx, a, v)
         pre = v
+        if src["eff"].startswith("smark:") and state is not None:
+            state["shared"][c["pipe"]] = list(pre[1])                        # … which has grown by one entry per modifier
         post = src["post"]
         if post != "none" and not c["skip"]:
             if post.startswith("c:"):
@@ -1103,7 +1256,8 @@ class C14(Prop):
                 elif rep.startswith("err raised:"):
                     itrace = (["src"] if self._innermost_table(case, pipes, c["pipe"]) else []) + ["src" if t["tag"].startswith("src") else t["tag"] for t in rec["trace"]]
                     mtrace = rep.split(" ")[2]
-                    if rec["outcome"] != "err:" + rep.split(" ")[1][7:] or itrace != ([] if mtrace == "-" else mtrace.split(",")):
+                    # which exception a list-valued rate raises is an accident of evaluation order: only "raised, after these callables"
+                    if itrace != ([] if mtrace == "-" else mtrace.split(",")):
                         dis.append(f"call {c}: impl {rec['outcome']} after {itrace}, model {rep}")
                 continue
             if rep == "bad-op" or rec["outcome"] != "ok":
@@ -1161,8 +1315,17 @@ class C14(Prop):
         pipes = self._registered([dict(r, outcome="ok") if r["op"] == "mod" else r for r in obs["reg"] if r["pipe"] != STEP_PIPE])
         for p in pipes.values():
             p["src"] = p["src_attempts"][0] if p["src_attempts"] else None
-        if len(obs["calls"]) != len(case["calls"]):
+        if len(obs["calls"]) != sum(1 for c in case["calls"] if not c.get("op")):
             f.append({"sig": "call-missing", "msg": f"{len(obs['calls'])} of {len(case['calls'])} calls were made"})
+        nops = [c for c in case["calls"] if c.get("op")]
+        if len(obs.get("ops", [])) != len(nops):
+            f.append({"sig": "operation-missing", "msg": f"{obs.get('ops')}"})
+        for c, got in zip(nops, obs.get("ops", [])):
+            if c["op"] == "set_step" and got != "ok":
+                f.append({"sig": "harness-update-refused", "msg": f"writing the step_size column: {got}"})
+            if c["op"] == "late_reg" and got == "ok":
+                f.append({"sig": "late-registration-accepted", "msg": f"{c['act']['op']} for {c['act']['pipe']} registered while the simulation runs was accepted"})
+        state = {}
         for rec in obs["calls"]:
             c = self._call(case, rec)
             set_scale(rec)
@@ -1189,7 +1352,7 @@ class C14(Prop):
             p = pipes[c["pipe"]]
             src = acts[(c["pipe"], p["src"]["tag"])]
             post = src["post"]
-            exp = self._expected(case, pipes, c, steps)
+            exp = self._expected(case, pipes, c, steps, state=state)
             if exp is None:
                 continue    # a Python list / tuple as a rate: the code raises AttributeError (`list.index` exists, `list.mul` does not); not in the property
             if rec["outcome"] != "ok":
@@ -1265,7 +1428,9 @@ class C14(Prop):
                 if rec.get("entries") != 1 + (case["mults"] is not None):
                     f.append({"sig": "step-pipeline-value", "msg": f"{where}: {rec.get('entries')} list entries (source + {int(case['mults'] is not None)} modifier)"})
             else:
-                want = [[i, (case["mults"][i] if case["mults"] is not None else 1) * case["min_step_ns"]] for i in c["idx"]]
+                later = case.get("mults_later")
+                m = [1] * case["pop"] if case["mults"] is None else later[1] if later and c["after"] >= later[0] else case["mults"]
+                want = [[i, m[i] * case["min_step_ns"]] for i in c["idx"]]
                 if rec.get("steps") != want:
                     f.append({"sig": "step-pipeline-value", "msg": f"{where}: {rec.get('steps')}, configuration gives {want}"})
         return f
@@ -1282,6 +1447,9 @@ class C14(Prop):
         t += ["late-registration:" + ("refused" if r != "ok" else "accepted") for r in obs.get("late", [])]
         t += ["step-size-pipeline:" + ("skip" if case["stepsize_calls"][r["call"]]["skip"] else "value") for r in obs.get("stepsize", [])]
         t += ["prior-simulation"] * bool(case.get("prior"))
+        t += ["op:" + c["op"] + (":refused" if c["op"] == "late_reg" and r != "ok" else "") for c, r in zip([c for c in case["calls"] if c.get("op")], obs.get("ops", []))]
+        if case.get("mults_later"):
+            t.append("steps:change-during-run" + (":global-step-pinned" if 1 in [a for a, b in zip(case["mults"], case["mults_later"][1]) if a == b == 1] else ""))
         if any(a.get("same_object") for comp in case["comps"] for a in comp):
             t.append("same-callable-registered-twice")
         if case["mults"] is not None and min(case["mults"]) > 1:
@@ -1324,6 +1492,10 @@ class C14(Prop):
                                      "permuted" if c["idx"] != sorted(c["idx"]) else "partial" if len(c["idx"]) < case["pop"] else "full"))
                 t.append("arg:" + ("none" if c.get("noarg") else "keyword" if c["kw"] else "positional"))
                 t.append("handle:" + c.get("handle", "get_value"))
+                if c.get("repeat"):
+                    t.append("repeat:" + c["repeat"])
+                if src["eff"].startswith("smark"):
+                    t.append("source:same-list-object-every-call")
                 t.append("extra-arg:" + (c["extra"][0] if c.get("extra") else "none"))
                 t.append("index-kind:" + c.get("index_kind", "int64"))
                 if c["idx"] and len(set(c["idx"])) < len(c["idx"]):
